@@ -21,7 +21,7 @@ BOUNDS = {
     'quick': dict(structured='singles and 16 ordered pairs of message types (thorough: all 49), symbolic fields, data blob of '
                              'symbolic length < 2^64, ext lists 0..2 on the first message; one symbolic cut position anywhere',
                   raw='1..2 fully symbolic octets in-connection; contact phase 1..7 symbolic octets; every cut'),
-    'thorough': dict(structured='all 49 pairs and selected triples, ext lists 0..2 on the first message and 0..1 on later ones', raw='up to 4 symbolic octets in-connection, 10 in the contact phase'),
+    'thorough': dict(structured='all 49 pairs and selected triples, ext lists 0..2 on single messages and 0..1 in longer streams', raw='up to 4 symbolic octets in-connection, 8 in the contact phase'),
 }
 ASSUMPTIONS = [
     'the peer stream is read in exactly two chunks (one cut); each read is below CHUNK_SIZE',
@@ -48,7 +48,7 @@ def cases(tier):
                 out.append(dict(kind='msgs', seq=t1 + '+' + t2))
     for n in (range(1, 3) if tier == 'quick' else range(1, 5)):
         out.append(dict(kind='raw', n=n))
-    for n in range(1, 8 if tier == 'quick' else 11):
+    for n in range(1, 8 if tier == 'quick' else 9):
         out.append(dict(kind='contact', n=n))
     for t in TYPES:
         out.append(dict(kind='codec', seq=t))
@@ -157,7 +157,9 @@ def harness(case, tier):
         return codec_roundtrip(c, case, tier)
     established = kind != 'contact'
     if kind == 'msgs':
-        recs = [sym_message(c, t, i, tier) for i, t in enumerate(case['seq'].split('+'))]
+        seq = case['seq'].split('+')
+        # (two extension items on the first message of short streams only: singles, and pairs in the quick tier)
+        recs = [sym_message(c, t, i if (len(seq) == 1 or (len(seq) == 2 and tier == 'quick')) else i + 1, tier) for i, t in enumerate(seq)]
         stream = b''
         for r in recs:
             stream = stream + rfc9174.encode(r)
